@@ -353,15 +353,32 @@ func runConcurrentListedAudit(h *Harness, j int) {
 			}
 			calls = append(calls, h.StartHandshake(n, fmt.Sprintf("listed%d.%d", round, i), w.ChainFor(w.A.Issue(EEOpts{Serial: loc.Common, CDP: cdp}), w.A)))
 		}
+		// among them, certificates of ANOTHER issuer that carry the very same serial: no list of their issuer exists,
+		// the loaded list says nothing about them, whatever the lookups running beside them are asking for
+		var others []*HS
+		for i, ko := 0, 1+tp.Int(3); i < ko; i++ {
+			others = append(others, h.StartHandshake(n, fmt.Sprintf("other-issuer%d.%d", round, i), w.ChainFor(w.B.Issue(EEOpts{Serial: loc.Common, CDP: []string{}}), w.B)))
+			calls = append(calls, h.StartHandshake(n, fmt.Sprintf("listed%d.%d+", round, i), w.ChainFor(w.A.Issue(EEOpts{Serial: loc.Common, CDP: []string{loc.URL}}), w.A)))
+		}
 		var ts []*Task
 		for _, c := range calls {
 			ts = append(ts, c.Task)
 		}
+		for _, c := range others {
+			ts = append(ts, c.Task)
+		}
 		h.Wait(ts...)
+		for i, c := range others {
+			h.R.Checks++
+			if isRevokedErr(c.Err) && ownsOracle("C11.revoked-unlisted") {
+				h.Violation("C11.revoked-unlisted", "concurrent-other-issuer:"+backend, "round %d: certificate %d of another issuer (no list of that issuer exists) carrying a serial that the loaded list of issuer A contains was reported REVOKED while %d handshakes for issuer A's certificates with that serial and a refresh cycle ran beside it (backend %s): %v", round+1, i+1, len(calls), backend, c.Err)
+				return
+			}
+		}
 		for i, c := range calls {
 			h.R.Checks++
 			if c.Err == nil && ownsOracle("C01.listed-accepted") {
-				h.Violation("C01.listed-accepted", "concurrent:"+backend, "round %d: handshake %d of %d concurrent handshakes for a serial that every version of the loaded list contains was ACCEPTED while a refresh cycle replaced v%d by v%d (strict=%v, backend %s)", round+1, i+1, k, round+1, round+2, strict, backend)
+				h.Violation("C01.listed-accepted", "concurrent:"+backend, "round %d: handshake %d of %d concurrent handshakes for a serial that every version of the loaded list contains was ACCEPTED while a refresh cycle replaced v%d by v%d (strict=%v, backend %s)", round+1, i+1, len(calls), round+1, round+2, strict, backend)
 				return
 			}
 		}
